@@ -3,6 +3,11 @@
 # two changes at a time. Usage: tools/seeded_all.sh [filter-regex]
 cd /verif
 FILTER="${1:-.}"
+# freeze the harness so that editing /verif meanwhile cannot break the runs
+export SEEDED_SRC=/tmp/seedrun/frozen-$$
+rm -rf "$SEEDED_SRC"; mkdir -p "$SEEDED_SRC"
+rsync -a --exclude bin --exclude evidence --exclude replay --exclude seeded --exclude .git /verif/ "$SEEDED_SRC/"
+trap 'rm -rf "$SEEDED_SRC"' EXIT
 LIST=$(for d in seeded/*/*/; do m=${d#seeded/}; m=${m%/}; [ -f "$d/patch.diff" ] || continue; echo "$m" | grep -qE "$FILTER" || continue;
   cs=$(ls $d/result.*.quick.txt 2>/dev/null | sed -E 's/.*result\.(C[0-9]+)\.quick\.txt/\1/' | tr '\n' ' '); [ -n "$cs" ] || cs="${m%%/*}"; echo "$m|$cs"; done)
 echo "$LIST" | xargs -P 2 -I{} bash -c 'x="{}"; m="${x%%|*}"; cs="${x#*|}"; tools/seeded.sh "$m" "$cs" quick 1 >/dev/null 2>&1; echo "done $m: $(for c in $cs; do head -1 seeded/$m/result.$c.quick.txt | cut -d" " -f1,4,5; done | tr "\n" " ")"'
